@@ -58,10 +58,11 @@ def parseStep : List String → Option Step
                       patient := pat, clearCache := clr, experiment := xp } }
   | _ => none
 
-/-- what happens to the cache before a step, 3 tokens `kind url arg`: `0` nothing; `1` the `.yaml` of the
+/-- what happens to the cache before a step, the first 3 of the 4 tokens `kind url arg lim`: `0` nothing; `1` the `.yaml` of the
 URL is replaced by content `arg` (`0` = truncated to nothing); `2` it is removed; `3` an invocation
 `--yes --download --insecure` that downloads content `arg` of the URL is killed after `WriteChecksum`;
-`4` … after `WriteTimestamp`; `5` … after `WriteResolvedLocation` -/
+`4` … after `WriteTimestamp`; `5` … after `WriteResolvedLocation`.  `lim` = `1`: the step itself runs under a
+file-size limit that lets every cache write through but the last (`LEv.limited`; op `remote.run` only). -/
 def parsePre : List String → Option (List Pre)
   | [k, u, a] => do
     let u ← u.toNat?; let a ← a.toNat?
@@ -78,15 +79,16 @@ def parsePre : List String → Option (List Pre)
     | _ => none
   | _ => none
 
-def parseEvs : Nat → List String → Option (List Ev)
+def parseEvs : Nat → List String → Option (List LEv)
   | 0, [] => some []
   | 0, _ => none
   | n+1, r => do
-    if r.length < 16 then none else
+    if r.length < 17 then none else
     let st ← parseStep (r.take 13)
     let pre ← parsePre ((r.drop 13).take 3)
-    let rest ← parseEvs n (r.drop 16)
-    some (pre.map Ev.pre ++ Ev.step st :: rest)
+    let lim ← (r.drop 16).head? >>= boolTok
+    let rest ← parseEvs n (r.drop 17)
+    some (pre.map (fun p => LEv.ev (.pre p)) ++ (if lim then LEv.limited st else LEv.ev (.step st)) :: rest)
 
 def showOpt : Option Nat → String
   | some n => toString n
@@ -119,23 +121,23 @@ def doRun (legacy : Bool) : List String → Option String
   | k :: n :: r => do
     let k ← k.toNat?; let n ← n.toNat?
     let evs ← parseEvs n r
-    let obs := observe legacy id k RState.init evs
+    let obs := observeL legacy id k RState.init evs
     some (" ; ".intercalate (obs.map fun (res, es) => " ".intercalate (showResult res :: showEntries es)))
   | _ => none
 
-/-- one chain step = the 13 tokens of a step (node 1) + `server2 answer2` (node 2) + the 3 tokens of `pre` -/
+/-- one chain step = the 13 tokens of a step (node 1) + `server2 answer2` (node 2) + the 4 tokens of `pre` (`lim` = 0) -/
 def parseCEvs : Nat → List String → Option (List CEv)
   | 0, [] => some []
   | 0, _ => none
   | n+1, r => do
-    if r.length < 18 then none else
+    if r.length < 19 then none else
     let base ← parseStep (r.take 13)
     match (r.drop 13).take 2 with
     | [sv, ans] =>
       let server ← parseServerTok sv
       let answer ← parseAnswer ans
       let pre ← parsePre ((r.drop 15).take 3)
-      let rest ← parseCEvs n (r.drop 18)
+      let rest ← parseCEvs n (r.drop 19)
       some (pre.map CEv.pre ++ CEv.step ⟨base, ⟨server, answer⟩⟩ :: rest)
     | _ => none
 
@@ -173,12 +175,12 @@ def incTree (c : Content) (b : Url) : List Url :=
   if c / 10 = 9 then [⟨1, false⟩, ⟨3, false⟩] else (incOf c b).toList
 
 /-- one tree step = the 13 tokens of a step (node A, its URL's server and answer) + `serverB answerB serverC answerC`
-(URLs 1 and 3) + `pick` (the exit status the binary ended with) + the 3 tokens of `pre` -/
+(URLs 1 and 3) + `pick` (the exit status the binary ended with) + the 4 tokens of `pre` (`lim` = 0) -/
 def parseTEvs : Nat → List String → Option (List TEv)
   | 0, [] => some []
   | 0, _ => none
   | n+1, r => do
-    if r.length < 21 then none else
+    if r.length < 22 then none else
     let base ← parseStep (r.take 13)
     match (r.drop 13).take 5 with
     | [svB, ansB, svC, ansC, pick] =>
@@ -188,7 +190,7 @@ def parseTEvs : Nat → List String → Option (List TEv)
       let answerC ← parseAnswer ansC
       let pick ← pick.toNat?
       let pre ← parsePre ((r.drop 18).take 3)
-      let rest ← parseTEvs n (r.drop 21)
+      let rest ← parseTEvs n (r.drop 22)
       let st : TStep := ⟨base.dt, base.url, base.flags,
         [(base.url.id, ⟨base.server, base.answer⟩), (1, ⟨serverB, answerB⟩), (3, ⟨serverC, answerC⟩)], pick⟩
       some (pre.map TEv.pre ++ TEv.step st :: rest)
